@@ -445,7 +445,7 @@ class SubRoutine(GlobalValue):
         for block in unreachable:
             # Important! Loop over successors first, since last instruction
             # determines the successors:
-            for successor in block.successors:
+            for successor in set(block.successors):
                 self.logger.debug("updating successor %s", successor)
                 for phi in successor.phis:
                     self.logger.debug("updating phi %s", phi)
